@@ -33,9 +33,8 @@ static int32_t binarySearch_(const uint16_t *array, uint32_t length,
     return -(low + 1); /* Not found, return insertion point */
 }
 
-/* Count set bits in bitmap - used for validation/debugging */
-__attribute__((unused)) static uint32_t
-bitmapCardinality_(const uint8_t *bits) {
+/* Count set bits in bitmap - used to validate deserialized bitmaps */
+static uint32_t bitmapCardinality_(const uint8_t *bits) {
     uint32_t count = 0;
     for (uint32_t i = 0; i < VARINT_BITMAP_BITMAP_SIZE; i++) {
         count += (uint32_t)__builtin_popcount(bits[i]);
@@ -588,54 +587,115 @@ size_t varintBitmapEncode(const varintBitmap *vb, uint8_t *buffer) {
 }
 
 varintBitmap *varintBitmapDecode(const uint8_t *buffer, size_t len) {
-    (void)len; /* Unused, but kept for API consistency */
+    /* Header: type byte + 32-bit cardinality */
+    if (len < 1 + sizeof(uint32_t)) {
+        return NULL; /* Truncated header */
+    }
+
+    const uint8_t type = buffer[0];
+    uint32_t cardinality;
+    memcpy(&cardinality, buffer + 1, sizeof(uint32_t));
+    buffer += 1 + sizeof(uint32_t);
+    len -= 1 + sizeof(uint32_t);
+
+    if (type > VARINT_BITMAP_RUNS || cardinality > VARINT_BITMAP_MAX_VALUE) {
+        return NULL; /* Unknown container or impossible cardinality */
+    }
 
     varintBitmap *vb = malloc(sizeof(varintBitmap));
     if (!vb) {
         return NULL; /* Out of memory */
     }
 
-    /* Read type */
-    vb->type = (varintBitmapContainerType)*buffer++;
-
-    /* Read cardinality */
-    memcpy(&vb->cardinality, buffer, sizeof(uint32_t));
-    buffer += sizeof(uint32_t);
+    vb->type = (varintBitmapContainerType)type;
+    vb->cardinality = cardinality;
 
     switch (vb->type) {
     case VARINT_BITMAP_ARRAY:
-        vb->container.array.capacity = vb->cardinality;
-        vb->container.array.values = malloc(vb->cardinality * sizeof(uint16_t));
+        if (len / sizeof(uint16_t) < cardinality) {
+            free(vb);
+            return NULL; /* Values do not fit in input */
+        }
+        vb->container.array.capacity = cardinality;
+        vb->container.array.values = malloc(cardinality * sizeof(uint16_t));
         if (!vb->container.array.values) {
             free(vb);
             return NULL; /* Out of memory */
         }
         memcpy(vb->container.array.values, buffer,
-               vb->cardinality * sizeof(uint16_t));
+               cardinality * sizeof(uint16_t));
+        /* Values must be strictly ascending */
+        for (uint32_t i = 1; i < cardinality; i++) {
+            if (vb->container.array.values[i - 1] >=
+                vb->container.array.values[i]) {
+                varintBitmapFree(vb);
+                return NULL;
+            }
+        }
         break;
 
     case VARINT_BITMAP_BITMAP:
+        if (len < VARINT_BITMAP_BITMAP_SIZE) {
+            free(vb);
+            return NULL; /* Bits do not fit in input */
+        }
         vb->container.bitmap.bits = malloc(VARINT_BITMAP_BITMAP_SIZE);
         if (!vb->container.bitmap.bits) {
             free(vb);
             return NULL; /* Out of memory */
         }
         memcpy(vb->container.bitmap.bits, buffer, VARINT_BITMAP_BITMAP_SIZE);
+        /* Stored cardinality must match the bits */
+        if (bitmapCardinality_(vb->container.bitmap.bits) != cardinality) {
+            varintBitmapFree(vb);
+            return NULL;
+        }
         break;
 
-    case VARINT_BITMAP_RUNS:
-        memcpy(&vb->container.runs.numRuns, buffer, sizeof(uint32_t));
+    case VARINT_BITMAP_RUNS: {
+        uint32_t numRuns;
+        if (len < sizeof(uint32_t)) {
+            free(vb);
+            return NULL; /* Truncated run count */
+        }
+        memcpy(&numRuns, buffer, sizeof(uint32_t));
         buffer += sizeof(uint32_t);
-        vb->container.runs.capacity = vb->container.runs.numRuns;
-        vb->container.runs.runs =
-            malloc(vb->container.runs.numRuns * 2 * sizeof(uint16_t));
+        len -= sizeof(uint32_t);
+        if (numRuns > cardinality ||
+            len / (2 * sizeof(uint16_t)) < numRuns) {
+            free(vb);
+            return NULL; /* More runs than members, or not in input */
+        }
+        vb->container.runs.numRuns = numRuns;
+        vb->container.runs.capacity = numRuns;
+        vb->container.runs.runs = malloc(numRuns * 2 * sizeof(uint16_t));
         if (!vb->container.runs.runs) {
             free(vb);
             return NULL; /* Out of memory */
         }
         memcpy(vb->container.runs.runs, buffer,
-               vb->container.runs.numRuns * 2 * sizeof(uint16_t));
+               numRuns * 2 * sizeof(uint16_t));
+        /* Runs must be non-empty, ascending, disjoint, inside the universe
+         * and add up to the stored cardinality */
+        uint32_t nextFree = 0;
+        uint32_t total = 0;
+        for (uint32_t i = 0; i < numRuns; i++) {
+            const uint32_t start = vb->container.runs.runs[i * 2];
+            const uint32_t length = vb->container.runs.runs[i * 2 + 1];
+            if (length == 0 || start < nextFree ||
+                start + length > VARINT_BITMAP_MAX_VALUE) {
+                varintBitmapFree(vb);
+                return NULL;
+            }
+            nextFree = start + length;
+            total += length;
+        }
+        if (total != cardinality) {
+            varintBitmapFree(vb);
+            return NULL;
+        }
         break;
+    }
     }
 
     return vb;
